@@ -427,17 +427,64 @@ def filters(S, rep, tier):
                    key="C19.d|1d|%s|%r" % (op.kernel.stencil.name, mult))
 
 
+def definitely_overlap(a, b):
+    """two views certainly share a cell: same allocation and, axis by axis, the same index / range or a full range"""
+    from ..values import pconst, to_pw
+    if a.alloc.id != b.alloc.id:
+        return False
+    for x, y, n in zip(a.axes, b.axes, a.alloc.shape):
+        def full(t):
+            return t[0] == "r" and t[1] == pconst(0) and t[2] == to_pw(n)
+        same = x[0] == y[0] and all(p.key() == q.key() for p, q in zip(x[1:], y[1:]))
+        if not (same or full(x) or full(y)):
+            return False
+    return True
+
+
+def filter_construction_sites(S, rep):
+    """the per-kernel analysis above gives the filter two *different* work arrays; the library's own construction sites
+    must do the same, or every 1-D stencil runs in place and the result depends on what the buffers held"""
+    from ..values import Arr
+    from .simtools import build_sim
+    found = 0
+    for flt in (("multiplicative", 2), ("convolution", 2)):
+        cfg = dict(kind="3d", with_forcing=False, with_free_stream_flow=False, penalty_zone_width=2, filter=flt,
+                   poisson_solver_type="greens_function_convolution")
+        run = build_sim(S, cfg)
+        if run.raised is not None or run.inst is None:
+            rep.ob("C19.e", "3D simulator with %s filter" % (flt,), False, "constructor cannot be analysed: %s" % run.raised,
+                   key="C19.e|%s|raises" % (flt,))
+            continue
+        for op in run.init_trace:
+            if op.kind != "CallBegin" or "laplacian_filter" not in op.fn.qualname.lower():
+                continue
+            arrs = [(k, v) for k, v in op.args.items() if isinstance(v, Arr)]
+            if len(arrs) < 2:
+                continue
+            found += 1
+            clash = [(k1, k2, v1) for i, (k1, v1) in enumerate(arrs) for k2, v2 in arrs[i + 1:] if definitely_overlap(v1, v2)]
+            inst = "%s called at %s (%s filter)" % (op.fn.qualname.split(".")[-1], op.where, flt[0])
+            rep.ob("C19.e", inst, not clash,
+                   "work arrays %s and %s are the same memory (%s): the 1-D stencils run in place" % (clash[0][0], clash[0][1], clash[0][2].describe())
+                   if clash else "work arrays %s are different allocations or disjoint views" % ", ".join(k for k, _ in arrs),
+                   key="C19.e|%s|%s|%s" % (op.fn.qualname, flt[0], clash[0][:2] if clash else ""))
+    rep.note("filter construction sites in the 3D simulator", found)
+
+
 def run(S, tier, rep):
     rep.rule_text = ("(a) extracted Brinkmann forms are convex combinations by sign analysis; (b) the extracted Heaviside is cut into the "
                      "ordered regions of its level-set argument, with exact endpoint values, closed-form derivative and parity; (c) every zone "
                      "cell of the damping summary is the inner-edge value times a product of sin(pi r), 0 <= r < 1/2, outermost ring r = 0; "
                      "(d) the Fourier multiplier of the extracted filter composite (Chebyshev conversion) equals the documented polynomial in "
-                     "s_a = (1-cos theta_a)/2 and the result does not depend on prior buffer contents")
+                     "s_a = (1-cos theta_a)/2 and the result does not depend on prior buffer contents; (e) every construction of the filter "
+                     "by the library hands it work arrays that do not share memory")
     rep.explanation = "real-arithmetic facts decided from normal forms; rounding is outside (the property says 'up to rounding')"
     brinkmann(S, rep)
     heaviside(S, rep)
     zone_damping(S, rep, tier)
     filters(S, rep, tier)
+    filter_construction_sites(S, rep)
+    rep.require_min("C19.e", 2)
     rep.require_min("C19.a", 30)
     rep.require_min("C19.b", 16)
     rep.require_min("C19.c", 8)
